@@ -21,7 +21,7 @@ Proof. exact refuted_rules_ok. Qed.
     a plan has a meaning only where it can be built — each of these rules (the cancel and merge
     rules, filter below ORDER BY, filters into inner / semi / anti / left outer joins, the right
     rotation of two inner joins, and the inner / semi / anti / left-outer instances of the
-    join-condition pushdowns) returns the same schema and the same bag of rows on both sides, for
+    join-condition pushdowns, and the swap of the inputs of an inner join under a projection) returns the same schema and the same bag of rows on both sides, for
     EVERY binding of its variables that satisfies its side conditions *)
 Theorem modelled_plan_rules_are_sound : Forall psound psound_rules.
 Proof. exact psound_rules_ok. Qed.
